@@ -8,6 +8,7 @@ ASSUMPTIONS = ['stdin is delivered by an unbuffered instrumented reader, so byte
 TRUSTED = ['std::io::Bytes pulls one byte per call from an unbuffered reader']
 
 REPS = 60
+READ_AHEAD = 64 * 1024 + 4096      # the largest read-ahead accepted as "a bounded number of bytes": a 64 KiB buffer plus one delivery
 NEEDS_BIN = True
 FILE_CAP = 24 * 1024 * 1024        # the writer gives up after this many bytes: the reader is then unbounded
 FILE_SLACK = 2 * 1024 * 1024       # pipe capacity (<= 1 MiB) + BufReader read-ahead + margin
@@ -57,7 +58,7 @@ def run(ctx):
         data = gen.stream(vals, rnd) + b'\n'
         ub = gen.jdump(unit) + b'\n'
         c = mkcase('E%d' % i, cfg, data)
-        c['inputs'][0]['endless'] = ub; c['inputs'][0]['budget'] = 200000; c['inputs'][0]['model_tail'] = ub * REPS
+        c['inputs'][0]['endless'] = ub; c['inputs'][0]['budget'] = 400000; c['inputs'][0]['model_tail'] = ub * REPS
         cases.append(c)
     impl = lib.run_harness(cases, timeout=240)
     model = lib.run_model(cases)
@@ -78,10 +79,11 @@ def run(ctx):
                                'expected': {'pulled': b['pulled'][0]}})
             continue
         checked += 1
-        if (lib.kind(a), a['stdout'], a['pulled']) != (lib.kind(b), b['stdout'], b['pulled'][0]):
+        # the property allows a bounded read-ahead (the model reads none: one byte of lookahead): the rows must be the model's, the
+        # bytes pulled at least the model's and at most READ_AHEAD more (an internal buffer in front of stdin is not a violation)
+        if (lib.kind(a), a['stdout']) != (lib.kind(b), b['stdout']) or not (b['pulled'][0] <= a['pulled'] <= b['pulled'][0] + READ_AHEAD):
             mism.append({'case': common.describe(c), 'impl': repr((lib.kind(a), a['stdout'][:200], a['pulled'])), 'model': repr((lib.kind(b), b['stdout'][:200], b['pulled'])), 'why': 'projection differs'})
-            # bounded read-ahead is the property; more than one value past the stopping point is a violation
-            if a['pulled'] > b['pulled'][0] + len(c['inputs'][0]['endless']) + 2:
+            if a['pulled'] > b['pulled'][0] + READ_AHEAD:
                 violations.append({'property': 'C14', 'relation': 'bytes read past the value that produced the T-th row are bounded',
                                    'args': lib.cfg_args(c['cfg']), 'stdin_hex': c['inputs'][0]['data'].hex(), 'endless_hex': c['inputs'][0]['endless'].hex(),
                                    'observed': {'pulled': a['pulled']}, 'expected': {'pulled': b['pulled'][0]}})
@@ -105,7 +107,7 @@ def run(ctx):
                                'observed': {'exit': rc, 'bytes_taken_from_the_writer': written, 'stdout_equal_to_stdin_run': so == a['stdout']},
                                'expected': {'pulled': a['pulled'], 'bytes_taken_from_the_writer_at_most': bound}})
     cov = {'evaluations': len(cases) + fifo_checked, 'file_argument_runs': fifo_checked, 'distinct_nontrivial': qualifying,
-           'rule': 'streaming pipelines (set/split/filter/select/unique/only-objects) with T in {0,1,2,3,5}, S in {0,1,3}; input = generated prefix + endless repetition of a qualifying record through an instrumented stdin reader with a 200 kB budget, and for a few of them the real binary reading a named pipe given as a file argument from an endless writer; non-trivial = the model predicts the pipeline can emit T rows',
+           'rule': 'streaming pipelines (set/split/filter/select/unique/only-objects) with T in {0,1,2,3,5}, S in {0,1,3}; input = generated prefix + endless repetition of a qualifying record through an instrumented stdin reader with a 400 kB budget, and for a few of them the real binary reading a named pipe given as a file argument from an endless writer; non-trivial = the model predicts the pipeline can emit T rows',
            'samples': [common.describe(c) for c in cases[:2]],
            'traces_validated_against_impl': checked - len(mism), 'model_mismatches': len(mism), 'direct_relations_checked': checked}
     broken = ['correspondence: model and implementation differ on %d cases, e.g. %s' % (len(mism), json.dumps(mism[0])[:1500])] if mism else []
@@ -116,7 +118,7 @@ def replay(ctx, r):
         rc, so, written = run_fifo(r['args'], bytes.fromhex(r['stdin_hex']), bytes.fromhex(r['endless_hex']))
         return {'observed': {'exit': rc, 'bytes_taken_from_the_writer': written}, 'expected': r['expected'],
                 'fails': rc == 'hang' or rc != 0 or written > r['expected']['bytes_taken_from_the_writer_at_most']}
-    c = {'id': 'r', 'cfg': lib.new_cfg(), 'args': r['args'], 'inputs': [{'data': bytes.fromhex(r['stdin_hex']), 'endless': bytes.fromhex(r['endless_hex']), 'budget': 200000}]}
+    c = {'id': 'r', 'cfg': lib.new_cfg(), 'args': r['args'], 'inputs': [{'data': bytes.fromhex(r['stdin_hex']), 'endless': bytes.fromhex(r['endless_hex']), 'budget': 400000}]}
     res = lib.run_harness([c], timeout=60)['r']
-    fails = res['result'] in ('hang', 'abort', 'panic') or res['budget_hit'] or res['pulled'] > r['expected']['pulled'] + len(bytes.fromhex(r['endless_hex'])) + 2
+    fails = res['result'] in ('hang', 'abort', 'panic') or res['budget_hit'] or res['pulled'] > r['expected']['pulled'] + READ_AHEAD
     return {'observed': {'result': res['result'], 'pulled': res['pulled'], 'budget_hit': res['budget_hit']}, 'expected': r['expected'], 'fails': fails}
